@@ -1272,12 +1272,12 @@ func init() {
 				Name:  "decode-fields",
 				Rule:  c08TreeRule + "; each section is encoded by the reference bit-writer encoder, decoded by NewSCTE35 and every getter of SCTE35 / SpliceCommand / SpliceInsertCommand / Component / SegmentationDescriptor / ComponentOffset / UPID is compared with the encoded value (fields behind a cleared flag are not compared), PTS() == (pts_time + pts_adjustment) mod 2^33 when the command carries a time, d.SCTE35() == signal, Data() == section bytes; non-trivial = at least one deviation",
 				Bound: c08Bound,
-				Body: func(ch *engine.Chooser) engine.Result {
+				Body: witnessTree(func(ch *engine.Chooser) engine.Result {
 					var res engine.Result
 					sec := c08GenSection(ch, false)
 					c08CheckDecode(&res, &sec, true)
 					return res
-				},
+				}, witnessSCTE),
 			},
 			&engine.Enum[c08ProductCase]{
 				Name: "decode-descriptor-product",
@@ -1300,14 +1300,14 @@ func init() {
 				Name:  "decode-values",
 				Rule:  "numeric fields swept one at a time inside otherwise fixed sections: pts_adjustment, time_signal / splice_insert / splice component pts_time, break_duration, segmentation pts_offset (33 bits), segmentation_duration (40 bits), tier+cw_index (12/8 bits), event ids + unique_program_id (32/16 bits), segment/sub-segment/avail numbers + upid type (8 bits each); values per field = every single bit, its complement, every low-ones / high-ones run, every pair of bits, 64 xorshift values per block; 8 blocks per field; same oracle as decode-fields; non-trivial = every value",
 				Gen:   c08GenValues,
-				Check: c08CheckValues,
+				Check: witnessEnum(c08CheckValues, witnessSCTE),
 				Batch: 1,
 			},
 			&engine.Enum[c08VectorCase]{
 				Name:  "captured-vectors",
 				Rule:  "the 44 captured sections of scte35_test.go, segmentationdescriptor_test.go, modify_test.go and state_test.go (time_signal, splice_insert and splice_null cues from real encoders, up to 2 descriptors, MIDs, foreign avail descriptor): values extracted by the reference parser (which the Pre self-test binds to the captures byte for byte) == every gots getter; non-trivial = every capture",
 				Gen:   c08GenVectors,
-				Check: c08CheckVector,
+				Check: witnessEnum(c08CheckVector, witnessSCTE),
 				Batch: 1,
 			},
 			&engine.Enum[c08LongCase]{
@@ -1329,7 +1329,7 @@ func init() {
 						add(4050, 4093)
 					}
 				},
-				Check: c08CheckLong, Batch: 1,
+				Check: witnessEnum(c08CheckLong, witnessSCTE), Batch: 1,
 			},
 			&engine.Enum[c08LongCase]{
 				Name: "insert-components-sweep",
@@ -1347,7 +1347,7 @@ func init() {
 						emit(c08LongCase{Kind: "components-immediate", From: n})
 					}
 				},
-				Check: c08CheckLong, Batch: 1,
+				Check: witnessEnum(c08CheckLong, witnessSCTE), Batch: 1,
 			},
 			&engine.Enum[c08RejCase]{
 				Name: "rejections",
